@@ -321,7 +321,7 @@ def run(ctx):
     # "none" or after the commit that re-pointed them (state machine shared with C05.R4; only this clause is claimed here)
     from .machines import explore, report_violations
     from .repack import RepackMachine
-    found, m = explore(ctx, chk, REPACK, {}, lambda g, c: RepackMachine(ctx, g, require_durable=False, rule='C11.R4'), write_policy(depth=5), 'wp5')
+    found, m = explore(ctx, chk, REPACK, {}, lambda g, c: RepackMachine(ctx, g, require_durable=False, rule='C11.R4', require_rewrite=True), write_policy(depth=5), 'wp5')
     found = [(v, c) for v, c in found if 'removed' in v.msg]
     report_violations(chk, REPACK, found)
     if not found:
